@@ -465,9 +465,10 @@ verus_unit(
         "thm_ll_enc_is_cstep": dict(own=["C06", "C02"], dep=[], text="layer B = layer A: ll_enc on machine values is the mathematical bookkeeping step cstep (whose abstraction is the exact interval step, lemma_bridge)"),
     },
 )
-kani("models::lookup_noncontiguous_fast_counts", ["C19", "C20", "C10"], kind="bounded", bound="3 probabilities, 1..4 symbols, P=4", timeout=900,
-     fns=[M + "categorical/lookup_noncontiguous.rs::NonContiguousLookupDecoderModel::{from_symbols_and_floating_point_probabilities_fast,from_symbol_table,quantile_function}"],
-     text="Ok iff #symbols == #probabilities; every quantile of an accepted model is answered in bounds")
+for _n in ("2", "3", "4"):
+    kani("models::lookup_noncontiguous_fast_counts_" + _n, ["C19", "C20", "C10"], kind="bounded", bound="3 probabilities, " + _n + " symbols, P=4",
+         fns=[M + "categorical/lookup_noncontiguous.rs::NonContiguousLookupDecoderModel::{from_symbols_and_floating_point_probabilities_fast,from_symbol_table,quantile_function}"],
+         text="Ok iff #symbols == #probabilities; every quantile of an accepted model is answered in bounds")
 kani("models::fast_f32_n2_p8", ["C19", "C03", "C20"], kind="bounded", bound="2 f32 entries (all bit patterns)", timeout=1200,
      fns=[M + "categorical.rs::fast_quantized_cdf", M + "categorical/contiguous.rs::ContiguousCategoricalEntropyModel::from_floating_point_probabilities_fast"])
 
